@@ -15,8 +15,8 @@ pub const SPEC: PropSpec = PropSpec {
 	level: "exploration",
 	rule: "valid: the schema AST (fullnames fixed first) is rendered to a random JSON spelling (namespace via dotted name / namespace attribute / inheritance / reset with \"\"; contradicting namespace next to a dotted name; definition placed at a random one of the type's occurrences, i.e. before OR after its uses; short vs full references; shuffled attribute order; doc/aliases/default/order/unknown attributes; primitives as strings or objects; optional decimal scale omitted; unicode escapes; whitespace) and parsed; the node graph read back through SchemaMut::nodes() must be bisimilar to the AST (kinds, fullnames, field names+order, symbols, sizes, logical types+parameters, reference targets) and its canonical form (hook H1) must equal the reference one. invalid: unknown reference, duplicate fullname (same or different spelling), missing name/fields/symbols/items/values/size, record unconditionally containing itself (directly / through a record chain, also with forward references) must be rejected. distinct by hash(document text)",
 	assumptions: &["spellings the specification leaves undefined (leading-dot references, nested type objects) are not generated as valid"],
-	cases: (60_000, 6_000_000),
-	secs: (45, 600),
+	cases: (50_000_000, 4_000_000_000),
+	secs: (30, 600),
 	required: &["valid_parsed_ok", "with_use_before_definition", "invalid:unknown-reference", "invalid:duplicate-definition", "invalid:missing-attribute", "invalid:unconditional-cycle"],
 	run_case,
 	once: None,
